@@ -3,3 +3,4 @@
 //! Nothing here is reachable from the normal build.
 pub mod distro;
 pub mod sync;
+pub mod clock;
